@@ -39,6 +39,7 @@ func (w *World) Apply(e Event) {
 	case "add":
 		t := w.T[e.H]
 		t.Discovered = true
+		t.est, t.estDone = nil, false // a target discovered again is a new target for the explorer
 		w.refreshEst(t)
 		w.BudgetW--
 	case "remove":
@@ -342,6 +343,10 @@ func (w *World) Key() string {
 	for _, h := range w.order {
 		t := w.T[h]
 		fmt.Fprintf(&sb, "T%d:%v/%v/%v%v/%d/%d ", h, t.Discovered, t.Healthy, t.Down, t.FailNext, t.Kept, t.Total)
+		if t.est != nil && t.Discovered {
+			// the explorer's object (its content is history now: first successful probe, and whatever was written into it)
+			fmt.Fprintf(&sb, "E%s/%d/%d/%d/%s ", t.est.Health, t.est.Series, t.est.TotalSeries, t.est.ScrapeTimes, t.est.TargetState)
+		}
 	}
 	for i, s := range w.shards {
 		info := s.s.TM.TargetsInfo()
